@@ -29,6 +29,7 @@ func main() {
 		fs.BoolVar(&o.NoCross, "no-cross", false, "skip cross-solver check")
 		fs.BoolVar(&o.Verbose, "v", false, "verbose")
 		fs.BoolVar(&o.Trace, "trace", false, "print every path")
+		fs.IntVar(&o.TimeoutS, "timeout-s", 0, "override per-unit time budget (seconds)")
 		fs.IntVar(&o.MaxPaths, "max-paths", 0, "stop after this many paths")
 		fs.Parse(os.Args[2:])
 		o.Seed, _ = strconv.Atoi(envOr("VERIF_SEED", "1"))
